@@ -34,17 +34,27 @@ func c05failure(p *c05.Package, o c05.Outcome) (kind, detail string) {
 	case o.RunErr != "":
 		return "driver", o.RunErr
 	}
-	if len(o.Records) != p.NumActions() {
-		return "driver", fmt.Sprintf("%d records for %d actions", len(o.Records), p.NumActions())
+	base := 0
+	for _, r := range o.Records {
+		if r.Via == "" {
+			base++
+		}
+	}
+	if base != p.NumActions() {
+		return "driver", fmt.Sprintf("%d records for %d actions", base, p.NumActions())
 	}
 	for _, r := range o.Records {
+		via := ""
+		if r.Via != "" {
+			via = " [reached via " + r.Via + "]"
+		}
 		if r.Err != "" {
-			return r.Kind + "-fails", fmt.Sprintf("%s %s.%s: %s", r.Kind, r.Iface, r.Name, r.Err)
+			return r.Kind + "-fails", fmt.Sprintf("%s %s.%s%s: %s", r.Kind, r.Iface, r.Name, via, r.Err)
 		}
 		for _, l := range r.Legs {
 			if !l.ValueOK {
-				return l.What + "-not-equal", fmt.Sprintf("%s %s.%s (%s): passed %s, the other side got %s (payload %s)",
-					r.Kind, r.Iface, r.Name, strings.Join(l.Sigs, " "), l.Canon, l.Got, l.Bytes)
+				return l.What + "-not-equal", fmt.Sprintf("%s %s.%s%s (%s): passed %s, the other side got %s (payload %s)",
+					r.Kind, r.Iface, r.Name, via, strings.Join(l.Sigs, " "), l.Canon, l.Got, l.Bytes)
 			}
 		}
 	}
@@ -62,7 +72,7 @@ func c05known(sw map[string]bool, ts []c05.Trigger) string {
 
 func runC05(res *hx.Result, rng *hx.Rng, tier string, outdir string) {
 	res.Rule = "idlgen: well-formed IDL packages (1-3 interfaces, 1-10 actions, structs shared between actions, Vec/Map/Tuple nesting, all scalars, any); " +
-		"plain stream and hostile-identifier stream (one hostile identifier per package); non-trivial = a struct used by two actions or a nested container; " +
+		"objects of other interfaces as method result / parameter / signal payload; plain stream and hostile-identifier stream (one hostile identifier per package); every proxy also through WithContext, returned objects exercised as secondary objects; non-trivial = a struct used by two actions or a nested container; " +
 		"distinct by sha256 of the IDL text"
 	env, err := c05.NewEnv()
 	if err != nil {
@@ -154,6 +164,9 @@ func c05evaluate(res *hx.Result, cs *hx.Cases, sw map[string]bool, j *c05job) {
 		res.Sample(strings.ReplaceAll(text, "\n", " | "))
 	}
 	for _, r := range records {
+		if r.Via != "" {
+			res.Dist("reached-via:" + r.Via)
+		}
 		c05addCases(res, cs, j, r)
 	}
 }
@@ -164,7 +177,7 @@ func c05dist(res *hx.Result, p *c05.Package) {
 	seen := map[string]bool{}
 	note := func(t *c05.IType) {
 		t.Walk(func(x *c05.IType) {
-			k := map[c05.TK]string{c05.TScalar: x.Scalar, c05.TVec: "Vec", c05.TMap: "Map", c05.TTuple: "Tuple", c05.TRef: "struct"}[x.K]
+			k := map[c05.TK]string{c05.TScalar: x.Scalar, c05.TVec: "Vec", c05.TMap: "Map", c05.TTuple: "Tuple", c05.TRef: "struct", c05.TObj: "object"}[x.K]
 			seen["type:"+k] = true
 		})
 	}
